@@ -76,6 +76,8 @@ def gen_history(rng, cfg, nlisteners, polite):
 def make_case(rng):
     threads = rng.randint(1, 3)
     cfg = {"threads": threads, "worker_connections": rng.choice([1, 2, 3, 3, 4, 4, 5, 5, 6]), "keepalive": rng.choice([0, 1, 2])}
+    if rng.random() < 0.15:
+        cfg["max_requests"] = rng.randint(1, 4)         # the worker leaves its loop by itself, possibly with work queued
     if rng.random() < 0.35:
         # hold pool threads back at the worker's lock so that the loop runs in between (interleaving exploration)
         cfg["_lock_delay"] = rng.choice([0.3, 0.6, 1.0])
